@@ -209,6 +209,11 @@ def work_init(init: dict) -> None:
             if inspect.isfunction(v) and id(v) in originals and originals[id(v)][1] is v:
                 setattr(mod, k, stubs[originals[id(v)][0]])
                 rebinds += 1
+            elif type(v) is dict:       # a registry that holds function objects bound at import time
+                for dk, dv in list(v.items()):
+                    if inspect.isfunction(dv) and id(dv) in originals and originals[id(dv)][1] is dv:
+                        v[dk] = stubs[originals[id(dv)][0]]
+                        rebinds += 1
 
     # resolve the documented public names behaviourally: which stub does the documented function run?
     doc = {}
